@@ -35,7 +35,7 @@ def all_checks():
 
 def cmd_setup(args):
     os.makedirs(corr.WORK, exist_ok=True)
-    rc, out = corr.coq_make([], timeout=7000)
+    rc, out = corr.coq_make(["-k"], timeout=7000)
     print(out[-3000:])
     if rc != 0:
         print("setup: coq build failed (checks will report it per property)")
